@@ -204,4 +204,24 @@ theorem c07_stack_detections (s0 s : Stack) (es : List Event) (h0 : s0.incoming 
     (ms : List RxMsg) : runRecv s.incoming ms = detections (rxHist es) ms :=
   runRecv_eq s.incoming (rxHist es) ms (c07_stack_memory_is_history s0 s es h0 hrun)
 
+/-- the OfferService datagram of C05Global (reboot flag, session 1) with the SD unicast flag CLEAR -/
+def offerNoUnicastDgram : Bytes :=
+  [255, 255, 129, 0, 0, 0, 0, 36, 0, 0, 0, 1, 1, 1, 2, 0, 128, 0, 0, 0, 0, 0, 0, 16, 1, 0, 0, 0, 0, 7, 0, 1, 1, 0, 0, 3,
+   0, 0, 0, 0, 0, 0, 0, 0]
+
+def c07ExampleRun : List Event :=
+  [.input (.dgram 1 true offerDgram), .input (.dgram 2 true offerDgram), .input (.dgram 1 true offerNoUnicastDgram),
+   .input (.dgram 1 false stopDgram), .input (.dgram 1 true stopDgram)]
+
+/-- non-vacuity: a concrete run through the real receive path - two senders, both channels; the third datagram repeats
+session id 1 under the reboot flag and has the SD unicast flag clear: it is recorded and detected all the same (its
+entries are ignored), the discovery store is flushed (`false` in the store log); the other sender and the other
+channel neither trigger nor mask anything -/
+example :
+    rxHist c07ExampleRun = [⟨1, true, true, 1⟩, ⟨2, true, true, 1⟩, ⟨1, true, true, 1⟩, ⟨1, false, true, 2⟩, ⟨1, true, true, 2⟩] ∧
+    detections [] (rxHist c07ExampleRun) = [false, false, true, false, false] ∧
+    (runAll ({ watchAll := [0] } : Stack) c07ExampleRun).map (fun s => (s.incoming, s.storeLog.map (·.1))) =
+      some ([((1, true), true, 2), ((1, false), true, 2), ((2, true), true, 1)], [true, true, false]) := by
+  decide +kernel
+
 end Someip
